@@ -401,6 +401,7 @@ type c08Scen struct {
 	offLog  map[string]int
 	offStat map[string]int
 	nQueries   int
+	statsOff   bool // the statistics are disabled (last PUT said enabled:false)
 	switchVia  string // the handler that last switched anonymisation at run time
 	anonSeen   bool
 	macDiverge bool
@@ -604,7 +605,7 @@ func (sc *c08Scen) query(spelled string, any bool, addr netip.Addr, cid string) 
 		nameIgnS = true
 	}
 	mayLog := !nameIgnQ && !(owner != nil && owner.IgnoreQueryLog)
-	mayCount := !nameIgnS && !(owner != nil && owner.IgnoreStatistics)
+	mayCount := !nameIgnS && !(owner != nil && owner.IgnoreStatistics) && !sc.statsOff
 	if nameIgnQ || nameIgnS {
 		sc.cls2["name-ignored"] = true
 	}
@@ -885,20 +886,28 @@ func (sc *c08Scen) roll(k uint32) {
 	sc.cls2["unit-rollover"] = true
 }
 
-// setStatsConf changes the statistics ignore list through the API.
-func (sc *c08Scen) setStatsConf(rules []string) {
+// setStatsConf: PUT /control/stats/config/update, enabled flag and ignore list
+// in ONE request.
+func (sc *c08Scen) setStatsConf(enabled bool, rules []string) {
 	if rules == nil {
 		rules = []string{}
 	}
-	body, _ := json.Marshal(map[string]any{"enabled": true, "interval": 86400000, "ignored": rules})
+	body, _ := json.Marshal(map[string]any{"enabled": enabled, "interval": 86400000, "ignored": rules})
 	w := sc.call(http.MethodPut, "/control/stats/config/update", string(body))
 	if w.Code != http.StatusOK {
 		sc.t.Fatalf("stats config update: %d %s", w.Code, w.Body.String())
 	}
+	if enabled && sc.statsOff && fmt.Sprint(rules) != fmt.Sprint(sc.sRules) {
+		sc.cls2["stats-reenabled-with-new-list"] = true
+	}
+	sc.statsOff = !enabled
+	if !enabled {
+		sc.cls2["stats-disabled"] = true
+	}
 	sc.sRules = rules
 	sc.sEngine, _ = aghnet.NewIgnoreEngine(rules)
-	sc.evs = append(sc.evs, vfApp("SStatsConf", c08RulesCoq(rules), c08Table(sc.sEngine)))
-	sc.desc = append(sc.desc, fmt.Sprintf("PUT stats/config/update ignored=%v", rules))
+	sc.evs = append(sc.evs, vfApp("SStatsConf", vfBool(enabled), c08RulesCoq(rules), c08Table(sc.sEngine)))
+	sc.desc = append(sc.desc, fmt.Sprintf("PUT stats/config/update enabled=%v ignored=%v", enabled, rules))
 	sc.cls2["stats-config-change"] = true
 	c08RuleClasses(sc.cls2, rules)
 }
@@ -1256,7 +1265,7 @@ func c08Prelude(t *testing.T, out *vfOut, base string) (n int) {
 		sc.stats("after-rollover")
 		batch()
 		sc.setConf(true, anon, []string{"Tracker.Example"})
-		sc.setStatsConf([]string{"Tracker.Example", "*.ADS.test"})
+		sc.setStatsConf(true, []string{"Tracker.Example", "*.ADS.test"})
 		sc.updateClient("known", []string{"192.168.1.6", "cli2"}, true, true)
 		sc.search("rotated-after-change")
 		sc.stats("after-change")
@@ -1333,6 +1342,31 @@ func c08Prelude(t *testing.T, out *vfOut, base string) (n int) {
 		}
 		sc.search("memory")
 		sc.finish(out, "prelude-cidr-exact-lease")
+	}
+
+	// statistics disabled, then enabled again by one request that also changes
+	// the ignore list (round 8, P): the new list is in force at once
+	{
+		sc := c08New(t, base, n, false, false, nil, []string{"OK.Example"})
+		n++
+		all := func() {
+			for _, nm := range []string{"ok.example", "plain.test", "tracker.example", "a.ads.test", "ads.test"} {
+				sc.query(c08Spell(nil, nm), false, ap("192.168.1.5"), "")
+			}
+		}
+		all()
+		sc.setStatsConf(false, []string{"OK.Example"})
+		all()
+		sc.setStatsConf(true, []string{"||ads.test^", "Tracker.Example"})
+		all()
+		sc.stats("after-change")
+		sc.roll(1)
+		sc.setStatsConf(false, []string{"plain.test"})
+		all()
+		sc.setStatsConf(true, []string{"plain.test"})
+		all()
+		sc.stats("after-rollover")
+		sc.finish(out, "prelude-stats-disabled")
 	}
 
 	// deprecated POST /control/querylog_config: every field present / absent,
@@ -1541,7 +1575,24 @@ func c08Rand(t *testing.T, out *vfOut, base string, n int, r *vfRand) {
 		}
 	}
 	if r.Chance(1, 4) {
-		sc.setStatsConf(pickRules())
+		sc.setStatsConf(true, pickRules())
+		sc.stats("after-change")
+	}
+	if r.Chance(1, 4) {
+		// the statistics switched off, then on again by ONE request that also
+		// carries another ignore list
+		off := sc.sRules
+		if r.Bool() {
+			off = pickRules()
+		}
+		sc.setStatsConf(false, off)
+		for i := 1 + r.Intn(3); i > 0; i-- {
+			query()
+		}
+		sc.setStatsConf(true, pickRules())
+		for i := 2 + r.Intn(4); i > 0; i-- {
+			query()
+		}
 		sc.stats("after-change")
 	}
 	if r.Chance(2, 3) {
